@@ -61,7 +61,7 @@ def cross_process(h: Harness):
     algos = ["gp", "gpc", "rs", "hc", "opo"]
     reps = ["tree", "tree-pi", "ge", "sge", "dsge", "stack"]
     seeds = [0, 7] if not h.thorough else [0, 7, 123, 2024]
-    grammars = ["full", "plain"]
+    grammars = ["full", "plain", "usable"]
     configs = []
     for a in algos:
         for r in reps:
@@ -69,6 +69,8 @@ def cross_process(h: Harness):
                 if not h.thorough and gname == "plain" and a not in ("gp",):
                     continue
                 if a == "gpc" and gname == "plain":
+                    continue
+                if gname == "usable" and not (a in ("gp", "rs") and (h.thorough or r in ("tree", "ge", "stack"))):
                     continue
                 for s in seeds[: (1 if (a != "gp" and not h.thorough) else len(seeds))]:
                     configs.append([a, r, gname, s, {"gp": 30, "gpc": 120}.get(a, 12)])
